@@ -66,7 +66,7 @@ func (s *State) evalIndexAssigment(which ast.Node, index, value object.Object) o
 	id, _ := which.(*ast.Identifier)
 	val, ok := s.env.Get(id.Literal())
 	if !ok {
-		return s.NewError("identifier not found: " + id.Literal())
+		return s.identifierNotFound(id.Literal())
 	}
 	if object.Constant(id.Literal()) {
 		// Check before touching anything: large arrays/maps are updated in place, so by the time Set()
@@ -134,7 +134,7 @@ func (s *State) evalPrefixIncrDecr(operator token.Type, node ast.Node) object.Ob
 	id := nv.Literal()
 	val, ok := s.env.Get(id)
 	if !ok {
-		return s.NewError("identifier not found: " + id)
+		return s.identifierNotFound(id)
 	}
 	val = object.Value(val) // deref.
 	toAdd := int64(1)
@@ -158,7 +158,7 @@ func (s *State) evalPostfixExpression(node *ast.PostfixExpression) object.Object
 	id := node.Prev.Literal()
 	val, ok := s.env.Get(id)
 	if !ok {
-		return s.NewError("identifier not found: " + id)
+		return s.identifierNotFound(id)
 	}
 	val = object.Value(val) // deref.
 	var toAdd int64
@@ -848,6 +848,13 @@ func (s *State) evalExpressions(exps []ast.Node) ([]object.Object, *object.Error
 	return result, nil
 }
 
+// identifierNotFound is the error for a name bound nowhere. That outcome depends on state outside of the
+// current function (the name can get defined later), so like a successful outer lookup it prevents memoization.
+func (s *State) identifierNotFound(name string) object.Object {
+	s.env.TriggerNoCache()
+	return s.NewError("identifier not found: " + name)
+}
+
 func (s *State) evalIdentifier(node *ast.Identifier) object.Object {
 	name := node.Literal()
 	// initially we had that local var can shadow extensions - but no that makes everything a cache miss.
@@ -860,7 +867,7 @@ func (s *State) evalIdentifier(node *ast.Identifier) object.Object {
 	}
 	val, ok := s.env.Get(name)
 	if !ok {
-		return s.NewError("identifier not found: " + node.Literal())
+		return s.identifierNotFound(node.Literal())
 	}
 	return val
 }
